@@ -322,7 +322,7 @@ func contentTermCanon(fmtIdx int, c *signature.EnvelopeContent) string {
 		agent = strID(si.UnsignedAttributes.SigningAgent)
 	}
 	return fmt.Sprintf("(Content %d %d %d %s %s %s %d %d %s %d %d)", payloadCanonID(fmtIdx, c.Payload.Content), strID(c.Payload.ContentType), schemeCode(string(si.SignedAttributes.SigningScheme)),
-		cZ(timeZ(si.SignedAttributes.SigningTime)), cZ(timeZ(si.SignedAttributes.Expiry)), cList(attrs), int(si.SignatureAlgorithm),
+		timeTerm((si.SignedAttributes.SigningTime)), timeTerm((si.SignedAttributes.Expiry)), cList(attrs), int(si.SignatureAlgorithm),
 		1, cList(chain), agent, bytesID(si.UnsignedAttributes.TimestampSignature))
 }
 
@@ -420,7 +420,7 @@ func (r *areq) reqTerm() (string, string, string) {
 		agent = strID(r.Agent)
 	}
 	reqTerm := fmt.Sprintf("(SReq %d %d %d %d %s %s %s %d %s %s %d 1)", r.Fmt, payloadCanonID(r.Fmt, r.Payload), payloadKind(r.Payload), strID(r.Cty), cB(ctyOK(r.Cty)),
-		cZ(timeZ(r.Time)), cZ(timeZ(r.Expiry)), schemeCodeReq(r.Scheme), signer, cList(attrTerms), agent)
+		timeTerm((r.Time)), timeTerm((r.Expiry)), schemeCodeReq(r.Scheme), signer, cList(attrTerms), agent)
 	return reqTerm, sf, ss
 }
 
